@@ -93,8 +93,8 @@ impl Instance {
 pub enum K2Mode {
     Random,
     BitNeighbour(usize),
-    /// public protocols: the signer's PUBLIC key bytes with one bit flipped (Ed25519 32 bytes, P-384 49 bytes;
-    /// the RSA key stays another pair: a DER alias of the same key would not be "another key")
+    /// public protocols: the signer's PUBLIC key bytes with one bit flipped (Ed25519 32 bytes, P-384 49 bytes,
+    /// RSA PKCS#1 DER 270 bytes)
     PubBitNeighbour(usize),
     /// v1.public: the signer's RSA public key inside bytes that are not a key encoding (junk prefix of 1 / 24 /
     /// 32 bytes that is not a SubjectPublicKeyInfo header, junk suffix, truncation)
@@ -157,7 +157,9 @@ pub fn make_instance(spec: &InstSpec, pairs: &[(String, String)], r: &mut StdRng
     if let K2Mode::PubBitNeighbour(bit) = spec.k2 {
         let mut km = conc::keymat_from(sym1, rsa1);
         km.sym = sym2;
-        km.rsa_pk = conc::keymat_from(sym2, rsa2).rsa_pk;
+        // PKCS#1 DER is canonical: no single-bit change of it encodes the same (n, e)
+        let n_rsa = km.rsa_pk.len();
+        km.rsa_pk[(bit / 8) % n_rsa] ^= 1 << (bit % 8);
         km.ed_pk[(bit / 8) % 32] ^= 1 << (bit % 8);
         km.p384_pk[(bit / 8) % 49] ^= 1 << (bit % 8);
         keys.insert("k2".to_string(), km);
